@@ -71,4 +71,11 @@ theorem unmasked_custom_flags_change_access_mode_counterexample :
     flagWord [.CLOEXEC, .WRONLY] (keepCustom [] (0o400000 + 2)) % 4 = 3 := by
   decide
 
+/-- seed C08-2b (why the length derivation is in the table): with a plain cast a fresh buffer of capacity 2^32
+asks the OS for 0 bytes — a false end of file with 14 bytes pending — and capacity 2^32+5 for at most 5 -/
+theorem cast_length_false_eof_counterexample :
+    hugeRead .cast (2 ^ 32) hello = [] ∧ (hugeRead .cast (2 ^ 32 + 5) hello).length = 5 ∧
+    hugeRead .saturating (2 ^ 32) hello = hello := by
+  decide
+
 end Compio.Cex.C08
